@@ -12,6 +12,8 @@ events is the same as that of the nested loops the generators stand for.  This m
     for x in (e for a in A if c): body      ->  for a in A: if c: x = e ; body
     for x in list(A) / tuple(A) / iter(A)   ->  for x in A
     xs = <one of the above>; for x in xs    ->  as if written in place (a local bound once and used by that loop only)
+    for x in map(F, A): body                ->  for e in A: x = F(e) ; body
+    deque(map(F, A), maxlen=0) / list(map(F, A)) / [F(a) for a in A]  as a statement  ->  for a in A: F(a)
     x = C(...); if isinstance(x, D): P else: Q   ->  P or Q, when C is a repo class (records dispatched by their class; also
                                                  `match x: case D(...)`)
 
@@ -248,6 +250,17 @@ class Fuser:
                         prefix, gbody = got
                         self.fused.append(f"generator {g.qualname}")
                         return [*prefix, *self._yields(g, gbody, target, body, stack + (g.fq,), depth + 1)]
+            if isinstance(it, ast.Call) and self._is_builtin(ctx, it, {"map"}) and len(it.args) == 2 and not it.keywords and not any(isinstance(a, ast.Starred) for a in it.args):
+                # for x in map(F, X): body  ->  for e in X: x = F(e) ; body
+                name = Inliner._fresh("element", "map", self.taken)
+                self.taken.add(name)
+                applied = ast.copy_location(ast.Call(func=_recopy(it.args[0]), args=[ast.Name(id=name, ctx=ast.Load())], keywords=[]), it)
+                ast.fix_missing_locations(applied)
+                if hasattr(it, "_src"):
+                    applied._src = it._src  # type: ignore[attr-defined]
+                inner = self._emit(ctx, target, applied, body, loop)
+                self.fused.append("map")
+                return self._for(ctx, loop, ast.Name(id=name, ctx=ast.Store()), it.args[1], inner, stack, depth + 1, env)
             if isinstance(it, (ast.GeneratorExp, ast.ListComp)) and all(not g.is_async for g in it.generators):
                 comp = _recopy(it)
                 names = {n.id for g in comp.generators for n in ast.walk(g.target) if isinstance(n, ast.Name)}
@@ -326,6 +339,25 @@ class Fuser:
             return True
         return isinstance(it, ast.Call) and self._generator(ctx, it, stack) is not None
 
+    def _drained(self, ctx: FuncInfo, s: ast.stmt) -> ast.expr | None:
+        """The iterator an expression statement merely runs to its end for the effects of producing its elements:
+        `deque(map(f, xs), maxlen=0)`, `list(map(f, xs))`, `[f(x) for x in xs]`."""
+        if not isinstance(s, ast.Expr):
+            return None
+        e = s.value
+        src = getattr(s, "_src", None)
+        c = src[0] if src is not None else ctx
+        if isinstance(e, ast.ListComp) or isinstance(e, ast.SetComp):
+            return ast.copy_location(ast.GeneratorExp(elt=e.elt, generators=e.generators), e)
+        if isinstance(e, ast.Call) and e.args and not isinstance(e.args[0], ast.Starred):
+            lib = self._lib(c, e.func)
+            # (any / all stop at the first decisive element: they do not drain)
+            drains = (isinstance(e.func, ast.Name) and e.func.id in ("list", "tuple", "set", "frozenset", "sum", "sorted", "max", "min") and not lib) or lib == "collections.deque"
+            inner = e.args[0]
+            if drains and (isinstance(inner, (ast.GeneratorExp, ast.ListComp)) or (isinstance(inner, ast.Call) and self._is_builtin(c, inner, {"map"}))):
+                return inner
+        return None
+
     def _bulk_as_loop(self, ctx: FuncInfo, s: ast.stmt, stack: tuple[str, ...], env: dict[str, ast.expr]) -> ast.For | None:
         """`xs.extend(P)` / `xs += P` / `s.update(P)` with a producer P this module can open up: `for e in P: xs.append(e)`."""
         recv = prod = None
@@ -355,6 +387,15 @@ class Fuser:
     def _block(self, ctx: FuncInfo, stmts: list[ast.stmt], stack: tuple[str, ...], env: dict[str, ast.expr]) -> list[ast.stmt]:
         out: list[ast.stmt] = []
         for s in stmts:
+            drained = self._drained(ctx, s)
+            if drained is not None:
+                sink = ast.Name(id="_", ctx=ast.Store())
+                loop = ast.copy_location(ast.For(target=sink, iter=drained, body=[ast.copy_location(ast.Pass(), s)], orelse=[]), s)
+                ast.fix_missing_locations(loop)
+                if hasattr(s, "_src"):
+                    loop._src = s._src  # type: ignore[attr-defined]
+                self.fused.append("drained iterator")
+                s = loop
             src0 = getattr(s, "_src", None)
             bulk = self._bulk_as_loop(src0[0] if src0 is not None else ctx, s, stack, env)
             if bulk is not None:
